@@ -20,40 +20,66 @@ def litVal (s : String) : F :=
   | none => match s with
     | "a" => 2 | "b" => 3 | "c" => 5 | _ => 1
 
-def slotVal (benv : List F) (env : Nat → F) (c : Nat) : F :=
-  if Term.isBvar c then benv.getD (c / 4) 0 else env c
+/-- value of a slot occurrence at local depth `d` of its node (`d` = number of the node's own binders around it):
+a bound index `j ≥ d` refers to the `(j-d)`-th enclosing binder of the node; names are looked up in `env` -/
+def slotVal (d : Nat) (benv : List F) (env : Nat → F) (c : Nat) : F :=
+  if Term.isBvar c then (if c / 4 < d then 0 else benv.getD (c / 4 - d) 0) else env c
 
 /-- the slot values of a node's fields, in order (binder names excluded), each at its local depth -/
 def nodeVals (benv : List F) (env : Nat → F) (n : Node) : List F :=
-  (Term.nodeSlots n).map fun p => slotVal benv env p.2
+  (Term.nodeSlots n).map fun p => slotVal p.1 benv env p.2
 
 def nodeLit (n : Node) : String :=
   match n.fields with
   | [.lit v] => v
   | _ => ""
 
+/-- binder depths of the children as the evaluator uses them, per variant of the main language -/
+def expDepths : Nat → List Nat
+  | 6 => [1]            -- sum $x body
+  | 3 => [1, 0]         -- let $x body value
+  | 4 => [0, 0]         -- add
+  | 5 => [0, 0]         -- mul
+  | 14 => [0, 0]        -- k
+  | 13 => [0]           -- h
+  | _ => []
+
+/-- the operator of a node, given the values of its slots and of its children
+(`kid i bs` = value of child `i` with the additional binder values `bs`, innermost first) -/
+def evalNode (n : Node) (vals : List F) (kid : Nat → List F → F) : F :=
+  match n.v with
+  | 2 => vals.getD 0 0                                                   -- var $x
+  | 4 => kid 0 [] + kid 1 []                                             -- add
+  | 5 => kid 0 [] * kid 1 []                                             -- mul
+  | 6 => sum7 fun v => kid 0 [v]                                         -- sum $x body
+  | 3 => kid 0 [kid 1 []]                                                -- let $x b e  =  b[x := e]
+  | 15 => litVal (nodeLit n)                                             -- number
+  | 16 => litVal (nodeLit n)                                             -- symbol
+  | 7 => vals.getD 0 0 + 2 * vals.getD 1 0 + 1                           -- f2
+  | 8 => vals.getD 0 0 * vals.getD 1 0 + 3 * vals.getD 2 0               -- f3
+  | 9 => vals.getD 0 0 + 2 * vals.getD 1 0 + 3 * vals.getD 2 0 + 4 * vals.getD 3 0  -- f4
+  | 10 => 3 * vals.getD 0 0 + 2                                          -- g1
+  | 11 => vals.getD 0 0 * vals.getD 0 0 + vals.getD 1 0                  -- g2
+  | 12 => vals.getD 0 0 + vals.getD 1 0 * vals.getD 2 0 + 1              -- g3
+  | 13 => 3 * kid 0 [] + 2                                               -- h
+  | 14 => kid 0 [] * kid 1 [] + kid 0 [] + 2 * kid 1 []                  -- k
+  | _ => 0
+
 mutual
-/-- value of a term; operators by variant index of the main language -/
-def eval (benv : List F) (env : Nat → F) : Term → F
-  | .mk n cs =>
-    match n.v, cs with
-    | 2, _ => (nodeVals benv env n).getD 0 0                              -- var $x
-    | 4, [a, b] => eval benv env a + eval benv env b                      -- add
-    | 5, [a, b] => eval benv env a * eval benv env b                      -- mul
-    | 6, [b] => sum7 fun v => eval (v :: benv) env b                      -- sum $x body
-    | 3, [b, e] => eval (eval benv env e :: benv) env b                   -- let $x b e  =  b[x := e]
-    | 15, _ => litVal (nodeLit n)                                         -- number
-    | 16, _ => litVal (nodeLit n)                                         -- symbol
-    | 7, _ => let v := nodeVals benv env n; v.getD 0 0 + 2 * v.getD 1 0 + 1            -- f2
-    | 8, _ => let v := nodeVals benv env n; v.getD 0 0 * v.getD 1 0 + 3 * v.getD 2 0   -- f3
-    | 9, _ => let v := nodeVals benv env n; v.getD 0 0 + 2 * v.getD 1 0 + 3 * v.getD 2 0 + 4 * v.getD 3 0  -- f4
-    | 10, _ => let v := nodeVals benv env n; 3 * v.getD 0 0 + 2                        -- g1
-    | 11, _ => let v := nodeVals benv env n; v.getD 0 0 * v.getD 0 0 + v.getD 1 0      -- g2
-    | 12, _ => let v := nodeVals benv env n; v.getD 0 0 + v.getD 1 0 * v.getD 2 0 + 1  -- g3
-    | 13, [a] => 3 * eval benv env a + 2                                  -- h
-    | 14, [a, b] => eval benv env a * eval benv env b + eval benv env a + 2 * eval benv env b  -- k
-    | _, _ => 0
+/-- value of a term as a function of the binder stack and the environment; a node whose binder structure is
+not the one of its operator (never produced by the harness languages) has the value 0 -/
+def evalT : Term → List F → (Nat → F) → F
+  | .mk n cs => fun benv env =>
+    if Term.childDepths n = expDepths n.v then
+      evalNode n (nodeVals benv env n) fun i bs => ((evalTL cs).getD i (fun _ _ => 0)) (bs ++ benv) env
+    else 0
+def evalTL : List Term → List (List F → (Nat → F) → F)
+  | [] => []
+  | t :: ts => evalT t :: evalTL ts
 end
+
+/-- value of a term (`benv`: values of the enclosing binders, innermost first) -/
+def eval (benv : List F) (env : Nat → F) (t : Term) : F := evalT t benv env
 
 end Eval
 end SV
